@@ -231,32 +231,63 @@ fn dispose_chain_level() {
     kani::cover!(immediate && pnow.weaked(), "cover.chain.weaked_parent");
 }}
 
-dispose_harness! {
-/// (a'') the depth passed to the recursive call: at depth 1023 the callee must be AT the cap (1024),
-/// i.e. it re-defers the child without even reading its word.  The link is stamped with the current
-/// epoch, so a callee that wrongly believes to be below the cap would read the word and take the
-/// (cheap) "recent" branch - observable, without unrolling a second level.
+// ---- counting atomics for the depth-argument harness: no environment, no pointer comparison, so the
+//      number of atomic accesses is a CONCRETE value for CBMC and a path is cut the moment it exceeds it.
+static mut OPS: u32 = 0;
+static mut OPS_LIMIT: u32 = 0;
+unsafe fn op() {
+    OPS += 1;
+    // at depth 1023 the callee is AT the cap: it re-defers the zero child without touching any count word,
+    // so the call makes exactly the accesses of one level.  One more access means the recursive call was
+    // handed a depth below the cap (it is reading the child's word) - and failing here, on a concrete
+    // counter, also keeps CBMC from unrolling further levels.
+    assert!(OPS <= OPS_LIMIT, "C07.depth.recursive_call_passes_depth_plus_one");
+}
+fn y_load(a: &AtomicU64, _o: Ordering) -> u64 { unsafe { op(); *cell(a) } }
+fn y_cas(a: &AtomicU64, cur: u64, new: u64, _s: Ordering, _f: Ordering) -> Result<u64, u64> {
+    unsafe { op(); let old = *cell(a); if old == cur { *cell(a) = new; Ok(old) } else { Err(old) } }
+}
+fn y_fetch_add(a: &AtomicU64, v: u64, _o: Ordering) -> u64 { unsafe { op(); let old = *cell(a); *cell(a) = old.wrapping_add(v); old } }
+fn y_fetch_sub(a: &AtomicU64, v: u64, _o: Ordering) -> u64 { unsafe { op(); let old = *cell(a); *cell(a) = old.wrapping_sub(v); old } }
+
+/// (a'') the depth passed to the recursive call: at depth 1023 the callee must be AT the cap (1024).
+#[kani::proof]
+#[kani::stub(std::sync::atomic::Atomic::<u64>::load, y_load)]
+#[kani::stub(std::sync::atomic::Atomic::<u64>::fetch_add, y_fetch_add)]
+#[kani::stub(std::sync::atomic::Atomic::<u64>::fetch_sub, y_fetch_sub)]
+#[kani::stub(std::sync::atomic::Atomic::<u64>::compare_exchange, y_cas)]
+#[kani::stub(crate::ebr_impl::global_epoch, s_global_epoch)]
+#[kani::stub(crate::ebr_impl::cs, s_cs)]
+#[kani::stub(Guard::defer_unchecked, s_defer_unchecked)]
+#[kani::stub(std::vec::Vec::new, s_vec_new)]
+#[kani::stub(RcInner::try_destruct, rec_try_destruct)]
+#[kani::stub(RcInner::dealloc, rec_dealloc)]
+#[kani::stub(RcInner::decrement_weak, rec_decrement_weak)]
+#[kani::stub(RcInner::decrement_strong, rec_decrement_strong)]
+#[kani::stub(crate::ebr_impl::internal::Local::unpin, crate::ebr_impl::internal::verif_cut::s_unpin_unreachable)]
 #[kani::unwind(7)]
 fn dispose_recursion_depth_argument() {
-    EPOCH = kani::any();
-    kani::assume(EPOCH < (1usize << 62) && EPOCH >= 16);
-    let c = EPOCH;
-    let child = RcInner::alloc(C { next: AtomicRc::null() }, 1);
-    *cell(&(*child).state) = State::from_raw(WEAK_COUNT).add_strong(1).with_epoch(kani::any::<usize>() % 16).as_raw();
-    let link = Raw::from(child).with_high_tag(c % 16);                       // written in the current epoch: recent
-    let parent = RcInner::alloc(C { next: AtomicRc::from(Rc::from_raw(link)) }, 1);
-    let pe: usize = kani::any(); kani::assume(pe < 16 && old_enough(pe as u32, c));
-    *cell(&(*parent).state) = State::from_raw(0).add_weak(1).with_epoch(pe).as_raw();
-    PARENT = parent as usize; PARENT_WORD = cell(&(*parent).state) as usize; CHILD_WORD = cell(&(*child).state) as usize;
-    BUDGET = 0;
-    let counter = Cell::new(kani::any::<usize>() % 100_000);
-    let guard = s_cs();
-    dispose_general_node(parent, 1023, &counter, &guard);
-    assert!(POPS == 1 && CHILD_STEPS == 1 && State::from_raw(CHILD_NEW).strong() == 0, "C06.cascade.child_brought_to_zero");
-    assert!(DEFERS == 1 && DEFER_PTR == child as usize, "C07.depth.zero_child_at_cap_is_redeferred");
-    assert!(CHILD_LOADS_AFTER_DEC == 0, "C07.depth.recursive_call_passes_depth_plus_one");
-    assert!(counter.get() >= 2, "C07.counter.shared_with_the_recursive_call");
-}}
+    unsafe {
+        // everything is concrete here (the depth argument does not depend on epochs or counts)
+        EPOCH = 1000;
+        let c = EPOCH;
+        let child = RcInner::alloc(C { next: AtomicRc::null() }, 1);
+        *cell(&(*child).state) = State::from_raw(WEAK_COUNT).add_strong(1).with_epoch((c - 7) % 16).as_raw();
+        let link = Raw::from(child).with_high_tag((c - 6) % 16);
+        let parent = RcInner::alloc(C { next: AtomicRc::from(Rc::from_raw(link)) }, 1);
+        *cell(&(*parent).state) = State::from_raw(0).add_weak(1).with_epoch((c - 5) % 16).as_raw();   // 5 epochs old: immediate
+        PARENT = parent as usize; PARENT_WORD = cell(&(*parent).state) as usize;
+        // one level = parent: load, DESTRUCTED-CAS, load (weaked?) ; child: load, decrement-CAS
+        OPS_LIMIT = 5;
+        let counter = Cell::new(7usize);
+        let guard = s_cs();
+        dispose_general_node(parent, 1023, &counter, &guard);
+        assert!(POPS == 1 && DROPS == 1 && OPS == 5, "C06.cascade.one_level_makes_exactly_its_accesses");
+        assert!(State::from_raw(*cell(&(*child).state)).strong() == 0, "C06.cascade.child_brought_to_zero");
+        assert!(DEFERS == 1 && DEFER_PTR == child as usize, "C07.depth.zero_child_at_cap_is_redeferred");
+        assert!(counter.get() == 9, "C07.counter.shared_with_the_recursive_call");
+    }
+}
 
 /// tree-shaped node: two outgoing edges, handed out in order (first, next)
 struct C2 { first: AtomicRc<C2>, next: AtomicRc<C2> }
